@@ -96,7 +96,7 @@ end Sub
 namespace Sub
 variable {σ : Type} {F : FileOps σ} {inv : σ → Prop} {abs : σ → AFile}
 
-theorem write_refines (hF : IsFile F inv abs) (s : Sub σ) (w : Bytes) (h : invSub inv abs s) :
+theorem write_refines (hF : IsFileW F inv abs) (s : Sub σ) (w : Bytes) (h : invSub inv abs s) :
     ∃ s', Sub.write F s w = .ok (((absSub abs s).write w).1, s') ∧
       absSub abs s' = ((absSub abs s).write w).2 ∧ invSub inv abs s' ∧ Frame abs s s' := by
   have hsz := absSub_len s h
@@ -122,7 +122,7 @@ theorem write_refines (hF : IsFile F inv abs) (s : Sub σ) (w : Bytes) (h : invS
         congr 1; omega
       · rw [List.take_of_length_le (by omega)]
     have hdl : data.length ≤ s.size - s.seek := by rw [hdata]; simp; omega
-    obtain ⟨i2, e2, a2, v2⟩ := hF.write i1 data v1
+    obtain ⟨i2, e2, a2, v2⟩ := hF.write i1 data v1 (Or.inr (by rw [p1, c1]; omega))
     have hwt1 : (abs i1).writeTake data = data := by
       simp only [AFile.writeTake, AFile.size, c1, p1]
       split
@@ -219,7 +219,7 @@ theorem sub_isReadable (hF : IsReadable F inv abs) : IsReadable (Sub.ops F) (inv
 
 /-- **C09 (SubsectionIO).**  A window over anything that behaves like a file of length ≥ offset+size
     behaves like a fixed-size file whose content is that window — for every integer argument. -/
-theorem sub_isFile (hF : IsFile F inv abs) : IsFile (Sub.ops F) (invSub inv abs) (absSub abs) where
+theorem sub_isFile (hF : IsFileW F inv abs) : IsFile (Sub.ops F) (invSub inv abs) (absSub abs) where
   toIsReadable := sub_isReadable hF.toIsReadable
   write s w h := by
     obtain ⟨s', a, b, c, _⟩ := write_refines hF s w h; exact ⟨s', a, b, c⟩
